@@ -22,14 +22,14 @@ ExactAPIs == {"bytes", "json", "jsonnode", "jsonhex", "jsonnodehex"}
 Item(r, f) == IF r.ok THEN [ok |-> TRUE, used |-> r.next - 1, item |-> r[f], minimal |-> r.minimal] ELSE r
 
 P(e) == CASE e.api \in ExactAPIs -> ParseExact(e.in)
-          [] e.api = "list" -> ParseList(e.in)
+          [] e.api \in {"list", "listp"} -> ParseList(e.in)
           [] e.api = "input" -> Item(ParseIn(e.in, 1, FALSE), "in")
           [] e.api = "inputext" -> Item(ParseIn(e.in, 1, TRUE), "in")
           [] e.api = "output" -> Item(ParseOut(e.in, 1), "out")
           [] OTHER -> ParseStream(e.in)
 
 \* the transactions the call produced, as the spec sees them
-SpecTxs(e, p) == IF e.api = "list" THEN p.txs ELSE <<[tx |-> p.tx, ext |-> p.ext]>>
+SpecTxs(e, p) == IF e.api \in {"list", "listp"} THEN p.txs ELSE <<[tx |-> p.tx, ext |-> p.ext]>>
 
 \* C01: accepted exactly when the specification's parser accepts; same transaction, same
 \* bytes consumed, canonical re-serialisation in both formats, txid, clone.
@@ -39,6 +39,8 @@ CodecOK(e) ==
     /\ (e.ok /\ e.api \in ItemAPIs) => (e.used = p.used /\ e.item = p.item)
     /\ (e.ok /\ e.api \notin ItemAPIs) =>
         /\ e.api \notin ExactAPIs => e.used = p.used
+        \* a reader is consumed to exactly the end of the transaction / list: what follows stays in the source
+        /\ Has(e, "left") => e.left = Len(e.in) - p.used
         /\ Len(e.txs) = Len(SpecTxs(e, p))
         /\ \A k \in 1..Len(e.txs) :
               LET s == SpecTxs(e, p)[k]
@@ -48,7 +50,7 @@ CodecOK(e) ==
               /\ t.extb = Ser(s.tx, TRUE)
               /\ t.clonestd /\ t.cloneext
               /\ t.txid = Rev(t.h)
-        /\ (p.minimal /\ e.api # "list") =>
+        /\ (p.minimal /\ e.api \notin {"list", "listp"}) =>
               SubSeq(e.in, 1, p.used) = Ser(p.tx, p.ext)
 
 \* C09: total (a value or an error), never more bytes reported than supplied, allocation
